@@ -515,3 +515,43 @@ Qed.
 Example teardown_nonvacuous :
   td_run MapFirst [TdStep; TdStep; TdStoreAnswers; TdStep] = {| td_at := TdDone; td_in_map := false; td_answered := true |}.
 Proof. reflexivity. Qed.
+
+(* ---------------- the open-ack precedes every tunnel byte on the joining connection ---------------- *)
+Definition JInv (s : jshared * list jthread) : Prop :=
+  exists todo n, snd s = [JHandler todo; JCopy n] /\
+    ((todo = [true; false] /\ j_attached (fst s) = false /\ j_wire (fst s) = []) \/
+     (todo = [false] /\ j_attached (fst s) = false /\ j_wire (fst s) = [true]) \/
+     (todo = [] /\ exists rest, j_wire (fst s) = true :: rest)).
+
+Lemma jinv_step s i : JInv s -> JInv (sys_step _ _ jstep s i).
+Proof.
+  destruct s as [sh ls]. intros (todo & n & Hls & H). cbn [fst snd] in *. subst ls. unfold JInv, sys_step. cbn [fst snd].
+  destruct i as [|[|i]]; cbn [nth_error].
+  - destruct H as [(-> & Ha & Hw)|[(-> & Ha & Hw)|(-> & rest & Hw)]]; cbn.
+    + eexists _, _. split; [reflexivity|]. right. left. cbn. rewrite Hw. auto.
+    + eexists _, _. split; [reflexivity|]. right. right. cbn. rewrite Hw. eauto.
+    + eexists _, _. split; [reflexivity|]. right. right. eauto.
+  - destruct n as [|n]; cbn.
+    + exists todo, 0. auto.
+    + destruct H as [(-> & Ha & Hw)|[(-> & Ha & Hw)|(-> & rest & Hw)]]; try (rewrite Ha; cbn; eexists _, _; split; [reflexivity|]; auto; fail).
+      destruct (j_attached sh); cbn; eexists _, _; (split; [reflexivity|]); right; right; (split; [reflexivity|]); rewrite ?Hw; cbn; eauto.
+  - assert (En : nth_error (@nil jthread) i = None) by (destruct i; reflexivity). rewrite En. exists todo, n. auto.
+Qed.
+
+(* for every schedule of the handler and the copy loop: whatever is on the joining connection's wire starts with the ack — no
+   tunnel byte ever precedes it *)
+Theorem ack_precedes_tunnel_bytes : forall n sched,
+  j_wire (fst (join_run AckThenAttach n sched)) = [] \/
+  exists rest, j_wire (fst (join_run AckThenAttach n sched)) = true :: rest.
+Proof.
+  intros n sched. unfold join_run.
+  assert (H : JInv (run _ _ jstep ({| j_attached := false; j_wire := [] |}, [JHandler [true; false]; JCopy n]) sched)).
+  { apply (inv_all_schedules _ _ jstep JInv); [intros s i; apply jinv_step|].
+    eexists _, _. split; [reflexivity|]. left. auto. }
+  destruct H as (todo & k & _ & [(_ & _ & Hw)|[(_ & _ & Hw)|(_ & rest & Hw)]]); rewrite Hw; eauto.
+Qed.
+
+(* refuted: attach first — a schedule in which the woken copy loop wins puts tunnel bytes in front of the ack *)
+Theorem attach_then_ack_payload_first_refuted :
+  exists sched rest, j_wire (fst (join_run AttachThenAck 2 sched)) = false :: rest.
+Proof. exists [0; 1; 1; 0], [false; true]. reflexivity. Qed.
